@@ -450,10 +450,17 @@ async fn consume(svc: &s3s::service::S3Service, req: s3s::HttpRequest, consumer:
     let mut frames = Vec::new();
     let mut trailers = None;
     let mut body_error = None;
+    let mut declared: Vec<(u64, u64, Option<u64>, bool)> = Vec::new();
+    let mut delivered = 0u64;
     let fut = async {
         loop {
             if let Consumer::Slow(ms) = consumer {
                 tokio::time::sleep(Duration::from_millis(ms)).await;
+            }
+            {
+                use http_body::Body as _;
+                let h = body.size_hint();
+                declared.push((delivered, h.lower(), h.upper(), body.is_end_stream()));
             }
             let f = {
                 let mut fut = body.frame();
@@ -474,7 +481,10 @@ async fn consume(svc: &s3s::service::S3Service, req: s3s::HttpRequest, consumer:
             match f {
                 None => break,
                 Some(Ok(f)) => match f.into_data() {
-                    Ok(d) => frames.push(d.to_vec()),
+                    Ok(d) => {
+                        delivered += d.len() as u64;
+                        frames.push(d.to_vec());
+                    }
                     Err(f) => {
                         if let Ok(t) = f.into_trailers() {
                             trailers = Some(t);
@@ -499,7 +509,8 @@ async fn consume(svc: &s3s::service::S3Service, req: s3s::HttpRequest, consumer:
             }
         }
     }
-    Ok(Timed { resp: Resp { status: parts.status, headers: parts.headers, frames, trailers, body_error, framing_fault: None }, end_ms, data_after_end, hang })
+    let framing_fault = if body_error.is_none() && !hang { crate::svc::framing_fault_of(&declared, delivered) } else { None };
+    Ok(Timed { resp: Resp { status: parts.status, headers: parts.headers, frames, trailers, body_error, framing_fault }, end_ms, data_after_end, hang })
 }
 
 /// the document after an optional XML declaration and any XML white space around it (None: something else comes first)
@@ -639,6 +650,9 @@ fn part_keepalive(acc: &mut Acc, tier: Tier) -> serde_json::Value {
         }
         if t.data_after_end {
             bad(a, "data-after-end", "a poll after the end of the stream returned a frame".into());
+        }
+        if let Some(f) = &t.resp.framing_fault {
+            bad(a, "declared-body-size-disagrees-with-body", f.clone());
         }
         if t.resp.status.as_u16() != 200 {
             bad(a, "status", format!("status {}", t.resp.status.as_u16()));
